@@ -457,6 +457,7 @@ int dns_decode(char *buf, size_t buflen, struct query *q, qr_t qr, char *packet,
 			q->id = id;
 
 		/* Read name even if no answer, to give better error message */
+		name[0] = '\0';	/* readname() may write nothing at all */
 		readname(packet, packetlen, &data, name, sizeof(name));
 		CHECKLEN(4);
 		readshort(packet, &data, &type);
